@@ -325,3 +325,34 @@ pub fn drive2<A: Send + 'static, B: Send + 'static>(mut a: LocalFut<'static, A>,
         }
     }
 }
+
+/// Outcome of driving one future to quiescence on this thread.
+pub enum Driven<T> {
+    Done(T),
+    /// the future returned `Pending` and no waker fired: nothing in this closed system (pipe + tasks) can
+    /// ever wake it again — a logical deadlock, not a timeout
+    Stalled,
+    /// poll budget exhausted (treated as inconclusive)
+    Budget,
+}
+
+/// Deterministic replacement for a wall-clock watchdog: poll until ready, stalled, or `max_polls`.
+pub fn drive<F: Future>(fut: F, max_polls: u64) -> Driven<F::Output> {
+    let mut fut = std::pin::pin!(fut);
+    let (flag, w) = flag_waker();
+    let mut cx = Context::from_waker(&w);
+    let mut n = 0u64;
+    loop {
+        flag.take();
+        if let Poll::Ready(v) = fut.as_mut().poll(&mut cx) {
+            return Driven::Done(v);
+        }
+        if !flag.is_set() {
+            return Driven::Stalled;
+        }
+        n += 1;
+        if n >= max_polls {
+            return Driven::Budget;
+        }
+    }
+}
